@@ -125,5 +125,5 @@ Example T_C16_example_classify :
   parse_num TI8 W8 [49; 50; 56]%N = COutOfRange /\
   parse_num TI32 W32 [49; 50; 46; 53]%N = CInvalidArgument /\
   parse_num TU32 W8 [45; 53]%N = CInvalidArgument /\ classify_spec TU32 [45; 53]%N = COutOfRange.
-Proof. repeat split; vm_compute; reflexivity. Qed.
+Proof. exact classify_examples. Qed.
 Print Assumptions T_C16_example_classify.
